@@ -126,7 +126,7 @@ def main():
             "name": "pkgsim",
             "path": "sim/",
             "serves_properties": [c["property_id"] for c in checks],
-            "kind_free_text": "single-process deterministic simulator: one PRNG (VERIF_SEED) generates an explicit scenario (workload + schedule + fault list), execution is a pure function of the scenario over scripted Read/BufRead/Write seams, a scratch directory tree and a seedable hash seam; violations are minimised and written as replay files",
+            "kind_free_text": "single-process deterministic simulator: one PRNG (VERIF_SEED) generates an explicit scenario (workload + schedule + fault list), execution is a pure function of the scenario over scripted Read/BufRead/Write seams, a scratch directory tree, a seedable hash seam, a metering allocator (per-call work budget) and a second caller thread under strict alternation (a mask in the scenario says which thread makes which call); violations are minimised and written as replay files",
         }],
         "checks": checks,
         "not_applicable": na,
